@@ -111,12 +111,20 @@ def check_pool_tie(c, rec):
         raise Violation("subgradient", f"max_pool1d: total gradient {tot.tolist()} != total g {want.tolist()}; {c}")
 
 
+def _no_offset(c):
+    # finite differences through data sitting 1e4 away from its spread are too noisy for a 1e-5 comparison;
+    # the offset batch-norm data is used by the forward-value check (C06) and the history check (C13) only
+    c["args"].pop("offset", None)
+    return c
+
+
 def subchecks():
     subs = []
     heavy = {"conv1d", "conv2d", "batch_norm", "max_pool2d", "avg_pool2d", "fold", "unfold"}
     for op in nnops.OPS + [nnops.DROPOUT]:
         q = 150 if op.name in heavy else 300
-        subs.append(SubCheck(op.name, gradcheck.make_check(op), (lambda op=op: ops.full_case(op)),
+        strat = (lambda op=op: ops.full_case(op).map(_no_offset)) if op.name == "batch_norm" else (lambda op=op: ops.full_case(op))
+        subs.append(SubCheck(op.name, gradcheck.make_check(op), strat,
                              quick=q, thorough=2000, shards_quick=2, shards_thorough=4))
     subs.append(SubCheck("relu_kinks", check_relu_kink, relu_kink_cases, quick=300, thorough=4000))
     subs.append(SubCheck("pool_ties", check_pool_tie, pool_tie_cases, quick=300, thorough=4000))
